@@ -4,10 +4,9 @@ package fasta
 
 // Contracts for the deductive verifier in /verif (govc). Only compiled with -tags verif.
 
-// wfReader: the reader has its buffered source and template, and prefixes free of blanks
-// (true for the defaults ">" and ""), so that the name always starts after the prefix.
-//@ spec noBlank(p []byte) bool = forall k int :: 0 <= k && k < len(p) ==> p[k] != 32 && p[k] != 9
-//@ spec wfReader(r *Reader) bool = r != nil && r.r != nil && r.t != nil && noBlank(r.IDPrefix)
+// wfReader: the reader has its buffered source and template. The prefixes are exported fields and may hold any
+// bytes, blanks included (gff sets "##DNA " on the fasta writer it uses for inline sequences).
+//@ spec wfReader(r *Reader) bool = r != nil && r.r != nil && r.t != nil
 
 //@ func (*Reader).header
 //@   property C03
